@@ -854,6 +854,49 @@ func tamper(r *vlib.R, sig []byte, n *big.Int) [][]byte {
 	return out
 }
 
+// nearMissSigs signs (EM'^d mod n) encoded messages that differ from the
+// EMSA-PKCS1-v1_5 encoding in exactly one field: each check of the encoding
+// has to reject on its own.
+func nearMissSigs(r *vlib.R, n, d *big.Int, prefix, hashed []byte) [][]byte {
+	k := (n.BitLen() + 7) / 8
+	em := refEM(prefix, hashed, k)
+	if em == nil || d == nil {
+		return nil
+	}
+	t := len(prefix) + len(hashed)
+	ps := k - t - 3
+	var ems [][]byte
+	mod := func(f func(e []byte)) {
+		e := append([]byte(nil), em...)
+		f(e)
+		ems = append(ems, e)
+	}
+	mod(func(e []byte) { e[1] = 2 })
+	mod(func(e []byte) { e[2+r.Intn(8)] = 0xfe })
+	if ps > 8 {
+		mod(func(e []byte) { e[2+8+r.Intn(ps-8)] = byte(r.Intn(255)) }) // padding past the first eight octets
+		mod(func(e []byte) {
+			for i := 2 + 8; i < 2+ps; i++ {
+				e[i] = byte(1 + r.Intn(254))
+			}
+		})
+		mod(func(e []byte) { e[2+ps-1] = 0 }) // separator one octet early
+	}
+	mod(func(e []byte) { e[2+ps] = 0xff })
+	if len(prefix) > 0 {
+		mod(func(e []byte) { e[3+ps+r.Intn(len(prefix))] ^= 0x01 })
+	}
+	mod(func(e []byte) { e[k-1-r.Intn(len(hashed))] ^= 0x80 })
+	var out [][]byte
+	for _, e := range ems {
+		s := new(big.Int).Exp(new(big.Int).SetBytes(e), d, n)
+		b := make([]byte, k)
+		s.FillBytes(b)
+		out = append(out, b)
+	}
+	return out
+}
+
 func (w *world) genRSARaw() {
 	r := w.r
 	w.out("rsa new")
@@ -893,7 +936,7 @@ func (w *world) genRSARaw() {
 	if sig == nil {
 		sig = padTo(new(big.Int).Mod(new(big.Int).SetBytes(r.Bytes(k)), n).Bytes(), k)
 	}
-	for _, s := range tamper(r, sig, n) {
+	for _, s := range append(tamper(r, sig, n), nearMissSigs(r, n, d, prefix, hashed)...) {
 		w.out(fmt.Sprintf("rsa raw %s %s %s %s %s", vlib.Hex(n.Bytes()), vlib.Hex(e.Bytes()), vlib.Hex(prefix), vlib.Hex(hashed), vlib.Hex(s)))
 	}
 	if r.Chance(1, 3) { // other exponent / other hash under the same signature
@@ -933,7 +976,7 @@ func (w *world) genRSAVerify() {
 	case 3:
 		pk = b64(rsaPubRaw(s.e.Bytes(), append([]byte{0}, s.mod.n.Bytes()...), 1))
 	}
-	vs := tamper(r, sig, s.mod.n)
+	vs := append(tamper(r, sig, s.mod.n), nearMissSigs(r, s.mod.n, s.d, refPrefix[alg], hashed)...)
 	for i, v := range vs {
 		if i > 0 && s.mod.bits >= 4096 && r.Chance(1, 2) {
 			continue
@@ -1106,8 +1149,14 @@ func msgLine(zone string, keys []*dns.DNSKEY, sigs []*dns.RRSIG, rrs []wireRR, n
 		rr = wiresToken(rrs)
 	}
 	sw, per, hx := msgCols(zone, nAns, keys, sigs, rrs, time.Now().Unix())
-	return fmt.Sprintf("vfy msg z=%s k=%s s=%s rr=%s a=%d o=%s c=%s sw=%s p=%s hx=%s", hexStr(zone), tok(ks), tok(ss), rr, nAns,
-		ownersCol(rrs), canonCol(rrs), sw, per, hx)
+	var lib []dns.RR
+	for _, w := range rrs {
+		if rr, _, err := dns.UnpackRR(w.pack(), 0); err == nil {
+			lib = append(lib, rr)
+		}
+	}
+	return fmt.Sprintf("vfy msg z=%s k=%s s=%s rr=%s a=%d o=%s c=%s sw=%s p=%s hx=%s tg=%s", hexStr(zone), tok(ks), tok(ss), rr, nAns,
+		ownersCol(rrs), canonCol(rrs), sw, per, hx, targetsCol(lib))
 }
 
 // genMessage drives VerifyRRSIG: one to three RRsets of one zone signed by
@@ -1128,12 +1177,20 @@ func (w *world) genMessage() {
 	cases := []vcase{first}
 	for n := r.Intn(3); n > 0; n-- {
 		c, _, ok := w.baseCaseOpt(s, baseOpts{zone: zoneL, key: first.k, plain: r.Chance(2, 3)})
-		if ok && !(c.rrs[0].typ == 5 || c.rrs[0].typ == 39) { // no CNAME/DNAME pairs: synthesis is not modelled
+		if ok {
 			cases = append(cases, c)
 		}
 	}
-	for scenario := 0; scenario < 12; scenario++ {
+	// a DNAME of the zone (signed) and the CNAME a resolver synthesises from it (unsigned)
+	var dnameCase *vcase
+	if dc, _, ok := w.baseCaseOpt(s, baseOpts{typ: 39, zone: zoneL, key: first.k, plain: true}); ok {
+		dnameCase = &dc
+	}
+	for scenario := 0; scenario < 19; scenario++ {
 		if scenario > 0 && r.Chance(1, 2) {
+			continue
+		}
+		if scenario >= 12 && dnameCase == nil {
 			continue
 		}
 		keys := []*dns.DNSKEY{first.k}
@@ -1197,6 +1254,43 @@ func (w *world) genMessage() {
 			nAns = len(rrs)
 		case 10: // part of the message moved to the authority section
 			nAns = r.Intn(len(rrs) + 1)
+		case 12, 13, 14, 15, 16, 17, 18:
+			d := dnameCase.rrs[0]
+			dl, _, _ := splitWireName(d.owner)
+			dtl, _, _ := splitWireName(d.rdata)
+			pre := genLabels(r, 1, 2, true)
+			cn := wireRR{owner: joinWireName(append(append([][]byte{}, pre...), dl...)), typ: 5, class: d.class, ttl: 30,
+				rdata: joinWireName(append(append([][]byte{}, recaseLabels(r, pre)...), recaseLabels(r, dtl)...))}
+			dn := append([]wireRR(nil), dnameCase.rrs...)
+			dsig := dnameCase.sig
+			switch scenario {
+			case 13: // target that the DNAME does not produce
+				cn.rdata = joinWireName(append(genLabels(r, 1, 2, true), dtl...))
+			case 14: // CNAME at the DNAME owner itself: not below it
+				cn.owner = d.owner
+				cn.rdata = joinWireName(dtl)
+			case 15: // the DNAME is not signed
+				dsig = nil
+			case 16: // the DNAME lies outside the zone offered
+				out := append(genLabels(r, 1, 1, true), []byte("other"))
+				for i := range dn {
+					dn[i].owner = joinWireName(out)
+				}
+				cn.owner = joinWireName(append(append([][]byte{}, pre...), out...))
+				dsig = nil
+			case 17: // the synthesised CNAME sits in the authority section
+			case 18: // a CNAME below the DNAME whose prefix is not carried over
+				cn.rdata = joinWireName(dtl)
+			}
+			rrs = append(rrs, dn...)
+			if dsig != nil {
+				sigs = append(sigs, dsig)
+			}
+			nAns = len(rrs)
+			rrs = append(rrs, cn)
+			if scenario != 17 {
+				nAns = len(rrs)
+			}
 		case 11: // the key offered is not the signer's / not a zone key
 			k2 := *first.k
 			if r.Bool() {
@@ -1478,7 +1572,17 @@ func (w *world) genVerify() {
 	} else {
 		s = vlib.Pick(r, w.others)
 	}
+	w.verifyGroup(s)
+}
+
+// verifyGroup: one correctly signed RRset under s, then every signature shape and every
+// key-material shape, then a sample of the other variants.
+func (w *world) verifyGroup(s *signer) {
+	r := w.r
 	c, raw, ok := w.baseCase(s)
+	for t := 0; t < 6 && ok && (c.k.Flags&256 == 0 || c.k.Protocol != 3); t++ {
+		c, raw, ok = w.baseCase(s) // a zone key, so that the algorithm's own checks are what decides
+	}
 	if !ok {
 		return
 	}
@@ -1517,12 +1621,31 @@ func (w *world) sweeps() {
 				w.out(fmt.Sprintf("kt tag %d 3 1 %s", vlib.Pick(r, flagChoices), hexStr(b64(b))))
 				w.out(fmt.Sprintf("kt tag %d 3 1 %s", vlib.Pick(r, flagChoices), hexStr(wrap(r, b64(b)))))
 			}
+			// decoding that fails part-way, in the first and in a later chunk: the library keeps the octets
+			// decoded before the error and takes the tag from them
+			for _, n := range []int{6, 45, 189, 192, 201, 400} {
+				good := b64(r.Bytes(n))
+				cut := (len(good) / 2) &^ 3
+				for _, bad := range []string{good + "!", good[:len(good)-1], good[:cut] + "*" + good[cut:], good + "A", good[:cut] + " " + good[cut:],
+					good[:max(4, cut)-2] + "=" + good[max(4, cut)-2:]} {
+					w.out(fmt.Sprintf("kt tag %d 3 1 %s", vlib.Pick(r, flagChoices), hexStr(bad)))
+				}
+			}
 		}
 		w.out(fmt.Sprintf("kt tag %d 3 %d %s", vlib.Pick(r, flagChoices), a, hexStr(pk)))
 	}
 	w.out("ds new")
 	for dt := 0; dt < 256; dt++ {
 		w.dsCase(dt)
+	}
+	// one full verification group per kind of key, every run: RSA narrow and wide exponent, both curves, Ed25519
+	kinds := []*signer{w.rsa[2*len(exponents)+1], w.others[0], w.others[1], w.others[2]}
+	if len(w.wide) > 0 {
+		kinds = append(kinds, w.wide[0])
+	}
+	for _, s := range kinds {
+		w.out("vfy new")
+		w.verifyGroup(s)
 	}
 	// every record type the generator knows, validly signed, names inside the RDATA in mixed case
 	w.out("vfy new")
